@@ -93,6 +93,7 @@ impl Space for Extract {
             "name": spec.pattern(),
             "name_class": spec.class(),
             "prefix": names::PREFIXES[spec.prefix],
+            "leading_run": spec.lead_text(),
             "components": spec.comps.len(),
             "preserve": m.preserve,
             "chain": m.chain,
@@ -324,14 +325,42 @@ fn sizes(tier: Tier) -> ((usize, usize), (usize, usize)) {
     }
 }
 
-/// the bounded grammar plus the descend-then-climb names beyond its length bound (appended, so
-/// that the indices of the grammar names do not move)
+/// the bounded grammar plus the descend-then-climb names beyond its length bound plus the names
+/// behind a run of 2..3 leading separators (each family appended, so that the indices of the
+/// earlier names do not move)
 fn grammar_names(tier: Tier) -> Vec<names::NameSpec> {
     let (g, _) = sizes(tier);
     let mut v = names::enumerate(g.0, g.1);
     let (lo, hi) = climb_sizes(tier);
     v.extend(names::climbers(lo, hi));
+    v.extend(names::lead_runs(run_bounds(tier).0));
     v
+}
+fn relout_names(tier: Tier) -> Vec<names::NameSpec> {
+    let (_, rel) = sizes(tier);
+    let mut v = names::enumerate(rel.0, rel.1);
+    v.extend(names::lead_runs(run_bounds(tier).1));
+    v
+}
+/// bounds of the leading-separator-run names for the space `grammar` and the space `relout`
+fn run_bounds(tier: Tier) -> (names::RunBound, names::RunBound) {
+    use names::RunBound;
+    match tier {
+        Tier::Quick => (RunBound { full_n: 1, core_n: 2, drive_n: 1, free_gaps: false }, RunBound { full_n: 0, core_n: 1, drive_n: 1, free_gaps: false }),
+        Tier::Thorough => (RunBound { full_n: 2, core_n: 2, drive_n: 2, free_gaps: true }, RunBound { full_n: 1, core_n: 1, drive_n: 1, free_gaps: true }),
+    }
+}
+fn run_bound_text(b: names::RunBound) -> String {
+    let body = if b.core_n > b.full_n {
+        format!("bodies <= {} full / {} core", b.full_n, b.core_n)
+    } else {
+        format!("bodies <= {} full", b.full_n)
+    };
+    format!(
+        "{body} components, body separators {}, `C:` before the run for bodies <= {} components",
+        if b.free_gaps { "chosen independently" } else { "equal to the last separator of the run" },
+        b.drive_n
+    )
 }
 fn climb_sizes(tier: Tier) -> (usize, usize) {
     match tier {
@@ -341,10 +370,9 @@ fn climb_sizes(tier: Tier) -> (usize, usize) {
 }
 
 fn build(name: &str, _arg: &str, tier: Tier) -> Box<dyn Space> {
-    let (_, rel) = sizes(tier);
     match name {
         "grammar" => Box::new(Extract::new("grammar", grammar_names(tier), false, false, tier == Tier::Thorough)),
-        "relout" => Box::new(Extract::new("relout", names::enumerate(rel.0, rel.1), true, true, true)),
+        "relout" => Box::new(Extract::new("relout", relout_names(tier), true, true, true)),
         // an output directory whose own name holds a backslash (a separator in entry names, an ordinary character
         // in a directory name): absolute and relative, every single-component name and the core two-component ones
         "oddout" => {
@@ -403,7 +431,7 @@ fn main() {
     c.assumptions.clear();
     c.assume(format!("subject: the real CLI binary {} (dev profile, built from /repo's working tree by ./check); archives are written by the independent refimpl::mpqref writer, which does not normalise names", runner.cli));
     c.assume("the tool runs with cwd and --output 8 directories deep inside a fresh per-case jail under a vcore::Scratch directory; HOME, XDG_* and TMPDIR point at <jail>/home, which counts as tool state and is not judged; TOKIO_WORKER_THREADS=2, RAYON_NUM_THREADS=2, RUST_BACKTRACE=0 only bound start-up cost");
-    c.assume("rooted (leading-separator) names are always rooted at <jail>/abs/d1/d2/d3/d4 and a name holds at most 4 `..`, fewer than the depth of out/, cwd and the anchor: an escaping write lands inside the jail where the snapshot sees it");
+    c.assume("rooted names (one leading separator or a run of 2..3 of them) are always rooted at <jail>/abs/d1/d2/d3/d4 and a name holds at most 4 `..`, fewer than the depth of out/, cwd and the anchor: an escaping write lands inside the jail where the snapshot sees it");
     c.assume(match runner.drop_to {
         Some(u) => format!("when started as root the tool (and strace) run as uid/gid {u} with the jail chown'ed to that user, so a write that would leave the scratch directory is denied by the OS instead of damaging the machine; denied attempts are counted, not judged"),
         None => "started unprivileged: the tool runs under the invoking user".to_string(),
@@ -416,8 +444,15 @@ fn main() {
         c.assume("observer (ii) on every case of `relout` and, in `grammar`, on every name of <= 2 components and every descend-then-climb name (thorough: also every 3-component name over the core alphabet): strace -f -y restricted to mutating path-taking calls; only calls that succeeded are judged (paths normalised lexically, the jail holds no symlinks); allowed targets: out/, <jail>/home, /dev (devices, not /dev/shm), /proc");
     }
     c.rule = format!(
-        "case = (entry name, preserve-paths, patch chain, selection); names = prefix x body, body = components joined by independently chosen separators; space `grammar` (absolute --output): every body of <= {} components over the full 10-class alphabet plus every body of {} components over the core alphabet {{.., a, empty, B.txt}}, x 6 prefixes (empty first component only behind a rooted prefix), plus the descend-then-climb names {{.., a}}^k B.txt for k = {}..{} (at most 4 `..`, all-backslash and all-slash, no prefix); space `relout` (relative --output ../out): bodies <= {} full / {} core; spaces `oddout` / `oddout_rel`: the requested output directory is named `o\\ut` (absolute / relative), bodies <= 1 full / 2 core; one adversarial + one benign entry per archive (patch chain: base and patch both carry the adversarial name, distinct tokens). Non-trivial = the tool materialised the adversarial entry somewhere (its unique content token was found on disk); distinct by (space, name, modes). err_return = nothing was extracted at all (refusal).",
-        g.0, g.1, climb_sizes(c.tier).0, climb_sizes(c.tier).1, rel.0, rel.1
+        "case = (entry name, preserve-paths, patch chain, selection); names = prefix x body, body = components joined by independently chosen separators; space `grammar` (absolute --output): every body of <= {} components over the full 10-class alphabet plus every body of {} components over the core alphabet {{.., a, empty, B.txt}}, x 6 prefixes (empty first component only behind a rooted prefix), plus the descend-then-climb names {{.., a}}^k B.txt for k = {}..{} (at most 4 `..`, all-backslash and all-slash, no prefix); leading-separator runs: every name [`C:`] run <ANCHOR> body whose run is 2 or 3 separators in every mix of `\\` and `/` (12 runs: `\\\\`, `//`, `\\/`, `/\\`, `\\\\\\`, ..., `///`), the anchor being an absolute path inside the jail spelled with the last separator of the run (a name that is still absolute after ONE leading separator is stripped), {}; space `relout` (relative --output ../out): bodies <= {} full / {} core, leading-separator runs with {}; spaces `oddout` / `oddout_rel`: the requested output directory is named `o\\ut` (absolute / relative), bodies <= 1 full / 2 core; one adversarial + one benign entry per archive (patch chain: base and patch both carry the adversarial name, distinct tokens). Non-trivial = the tool materialised the adversarial entry somewhere (its unique content token was found on disk); distinct by (space, name, modes). err_return = nothing was extracted at all (refusal).",
+        g.0,
+        g.1,
+        climb_sizes(c.tier).0,
+        climb_sizes(c.tier).1,
+        run_bound_text(run_bounds(c.tier).0),
+        rel.0,
+        rel.1,
+        run_bound_text(run_bounds(c.tier).1)
     );
     // the binary is shared with other checks and rebuilt by ./check: it must not change under us
     let stamp = |p: &str| std::fs::metadata(p).ok().map(|m| (m.len(), m.modified().ok()));
@@ -436,6 +471,10 @@ fn main() {
         json!({
             "component_classes_full": names::FULL.len(), "component_classes_core": names::CORE.len(), "separators": 2, "prefixes": names::PREFIXES.len(),
             "names_grammar": ng.len(), "names_relout": nr.len(),
+            "leading_separator_runs": names::runs().len(),
+            "names_leading_runs_grammar": names::lead_runs(run_bounds(c.tier).0).len(),
+            "names_leading_runs_relout": names::lead_runs(run_bounds(c.tier).1).len(),
+            "names_climbers_grammar": names::climbers(climb_sizes(c.tier).0, climb_sizes(c.tier).1).len(),
             "names_by_class_grammar": {
                 "rooted": ng.iter().filter(|n| n.class().starts_with("rooted")).count(),
                 "dotdot": ng.iter().filter(|n| n.class().contains("(..)")).count(),
